@@ -4,3 +4,4 @@ pub mod linalg;
 pub mod iso;
 pub mod orb2;
 pub mod groups;
+pub mod fg;
